@@ -219,6 +219,16 @@ func (Q) Make() Account {
 var pkgAlias = Ts{{}} // F-PKG-NAMED
 
 var pkgNew = new(Account) // F-PKG-NEW
+
+const pkgLen = len([1]Account{{f: 5}}) // F-CONST-LEN
+
+type slot [len([1]Account{{}})]byte // F-TYPE-LEN
+
+func Consts() int {
+	const lc = len([1]Account{{f: 6}}) // F-LOCAL-CONST
+	type ls [len([1]Account{{}})]byte // F-LOCAL-TYPE
+	return lc + len(ls{})
+}
 `
 
 // ZZC02Forms: the annotated type is never spelled in the second file — it is reached through an alias and through named
@@ -265,6 +275,11 @@ func ZZC02Forms() {
 		{f2, nd.LineOf(c02SrcF2, "F-METHOD"), "CTOR01", ann},
 		{f2, nd.LineOf(c02SrcF2, "F-PKG-NAMED"), "CTOR01", ann},
 		{f2, nd.LineOf(c02SrcF2, "F-PKG-NEW"), "CTOR02", ann},
+		// literals inside constant expressions and type expressions (array lengths), package-level and local
+		{f2, nd.LineOf(c02SrcF2, "F-CONST-LEN"), "CTOR01", ann},
+		{f2, nd.LineOf(c02SrcF2, "F-TYPE-LEN"), "CTOR01", ann},
+		{f2, nd.LineOf(c02SrcF2, "F-LOCAL-CONST"), "CTOR01", ann},
+		{f2, nd.LineOf(c02SrcF2, "F-LOCAL-TYPE"), "CTOR01", ann},
 	}
 	CheckExact(res.Diags, exp, "C02 forms through alias / named collection types, two files")
 }
